@@ -167,17 +167,21 @@ def measure(c, F, g):
     scale = float(np.abs(A).max())
     asym = max(float(np.abs(A[:, j] - A[:, jp]).max()) for j, jp in pairs) / scale
     res = {"form": form, "asym": asym, "pairs": len(pairs), "moment": None, "window": 0}
-    if m % 2 == 0:
-        jm, r = m // 2, 0
-        while 2 * (r + 1) + 1 <= n_e and (jm + r + 1) % n_e < n and (jm - r - 1) % n_e < n:
+    # window of whole rows centred on the tower (C08_centroid_on_wind_axis_any_tower_partial): lo-r .. hi+r, lo + hi = m
+    lo = m // 2
+    hi = m - lo
+    if lo % n_e < n and hi % n_e < n:
+        r = 0
+        while (hi - lo) + 2 * (r + 1) + 1 <= n_e and (hi + r + 1) % n_e < n and (lo - r - 1) % n_e < n:
             r += 1
-        if r >= 1:
-            d = np.arange(-r, r + 1)
-            W = A[:, (jm + d) % n_e, :]
-            mom = np.abs((d[None, :, None] * W).sum(axis=(1, 2)))
-            norm = r * np.abs(W).sum(axis=(1, 2))
+        jj = np.arange(lo - r, hi + r + 1)
+        if len(jj) >= 2:
+            w = (2 * jj - m) / 2.0  # signed distance from the tower in cells
+            W = A[:, jj % n_e, :]
+            mom = np.abs((w[None, :, None] * W).sum(axis=(1, 2)))
+            norm = np.abs(w).max() * np.abs(W).sum(axis=(1, 2))
             res["moment"] = float((mom / norm).max())
-            res["window"] = 2 * r + 1
+            res["window"] = len(jj)
     return res
 
 
